@@ -11,7 +11,7 @@ RULE = ("GEN-HASH: per variant, inputs at every length threshold and larger ones
         "injected raw states with bucket counters near 2^24, 2^25/100 (where u32*100 wraps), 2^31, 2^32 and crafted non-zero "
         "counts 17/18, 64/65, 128/129, under random options.  BMAP: the salted Pearson mapping on all 65536 (b1,b2) pairs for "
         "both bucket foldings and every salt, plus random quadruples.  KNOWN-ANSWERS: the repository's own vectors.  "
-        "Non-trivial = the case reaches finalization past the length gate; distinct by case text.")
+        "Non-trivial = the case reaches finalization past the length gate; distinct by case text.  A third of GEN-HASH (decided against the reference's outputs) and INJECT are repeated on the builds with the other generator code: low-memory buckets + single Pearson table, naive aggregation, statically selected SSE2 aggregation.")
 
 KNOWN = [
     ("N", 2, b"Lovak won the squad prize cup for sixty big jumps.", "T14A90024954691E114404124180D942C1450F8423775ADE1510211420456593621A8173"),
@@ -113,6 +113,25 @@ def run(ctx):
     ctx.correspond("INJECT", inj, hb, db, flags=fl, coq_sample=4, predicate=inj_pred,
                    nontrivial=lambda c, i: "ok" in i)
     ctx.correspond("BMAP", bmap_cases(ctx.rng.fork("bmap"), ctx.tier), hb, db, flags=fl, coq_sample=8)
+    # the builds that compile the OTHER generator code: no SIMD aggregation + single Pearson table + low-memory buckets (lowmem),
+    # naive aggregation with the default tables (nosimd), statically selected SSE2 aggregation: a third of GEN-HASH decided against
+    # the reference's outputs computed above, and the injected states against the model
+    spec_of = dict(zip([sc[5:] for sc in spec_cases], spec_out))
+    sub = [c for c in cases if c.startswith("hash ")][::3]
+    for name in ["lowmem", "nosimd", "static-sse2"]:
+        hb2 = ctx.harness(name)
+        if hb2 is None:
+            continue
+        fl2 = configs.flags(name)
+
+        def ref_pred(c, i, m, name=name):
+            so = spec_of.get(c, "")
+            if so and not so.startswith("CRASH") and i != so:
+                return "build `%s`: finalize_with_options(update(new(), data), options) != reference_tlsh(data, variant, options) = %s" % (name, so[:80])
+            return None
+        ctx.correspond("GEN-HASH[%s]" % name, sub, hb2, db, flags=fl2, coq_sample=0, predicate=ref_pred,
+                       nontrivial=lambda c, i: not ("TooSmallInput" in i or "TooLargeInput" in i))
+        ctx.correspond("INJECT[%s]" % name, inj, hb2, db, flags=fl2, coq_sample=0, predicate=inj_pred, nontrivial=lambda c, i: "ok" in i)
     return finish(ctx)
 
 
